@@ -338,6 +338,11 @@ def atan_range(V, ctx, cfg, pd2):
                 V.violation("|atan(x)| <= fixpidiv2", "atan", "atan is the constant %d on [%d,%d], above fixpidiv2 = %d" % (rl, lo, hi, pd2),
                             lib.rp(r, (lo,), "atan range"))
             continue
+        if 0 <= rl and rh <= pd2:
+            # the interval of the returned form already lies inside [0, fixpidiv2]: nothing more to show for this path
+            V.oblige(True)
+            info["segments"].append({"x": [lo, hi], "result_interval": [rl, rh]})
+            continue
         q = None
         N = Dn = None
         for s_ in st.bounds:
